@@ -4,6 +4,8 @@ CONSTANTS
     MaxR = 1000000
     MaxFault = 1000000
     TrackFiles = FALSE
+    Extras = TRUE
+    SymBreak = FALSE
     ResolveLock = TRUE
     CloseWaitsForHolders = TRUE
     LayerKeepsBlobRef = TRUE
